@@ -31,12 +31,17 @@ RULE = ("universes of two projects whose versions (finals, pre/post releases, re
         "requests per universe (respelled names, specifiers around the stored versions, unknown project, budgets "
         "None/1/2/3); observation = stack shape (leaves / pooled group), the repository that answered + version + file, "
         "and the per-repository get_candidates log (wrapped at run time); also the order of "
-        "sort_candidates(pooled.get_candidates(req)).  Non-trivial = at least two repositories hold the requested "
+        "sort_candidates(pooled.get_candidates(req)).  Second stream one step up: the real compile_main on generated argv "
+        "(--index-url / --extra-index-url in non-alphabetical orders, duplicates, --pre, --no-index) + 1-2 requirement files "
+        "with option lines, HTTP faked at requests.Session.get; observation = the URL lists build_repo receives, the stack, "
+        "the index that supplied the pin and the order of project-page requests.  Non-trivial = at least two repositories hold the requested "
         "project; distinct = distinct (universe, request, query settings).")
 TRUSTED_BASE = [
     "T1 harness/tr_c04.py: order/guards of the pooled_repos / repos statements of build_repo, the exact text of "
     "MultiRepository.get_dist and PooledCandidateMultiRepository.get_candidates, the set of methods the pooled class "
-    "overrides, allow_prerelease of SolutionRepository / SourceRepository -> gen/C04Consts.v; T1 of C03 (gen/C03Consts.v)",
+    "overrides, allow_prerelease of SolutionRepository / SourceRepository, the OrderedDict merge of command-line and "
+    "file-declared index URLs in compile_main (its guard, that nothing else assigns the lists, the build_repo call) "
+    "-> gen/C04Consts.v; T1 of C03 (gen/C03Consts.v)",
     "T2 harness/c04.py: generators, wheel / solution-file / setup.py fixtures, fake HTTP sessions, get_candidates wrappers, canonicalisation",
     "selection inside one repository is the C03 model; tag verdict / tag_score are inputs (C20)",
     "modelled, not verified: req_compile/repos/multi.py, cmdline.build_repo, get_candidates of solution.py / source.py / "
@@ -46,6 +51,7 @@ TRUSTED_BASE = [
 ASSUMPTIONS = [
     "a repository raises nothing but NoCandidateException out of get_dist (other exceptions end the run; C09)",
     "each solution file records a project at most once; a source tree holds a project at most once per version",
+    "how option lines of requirement files are collected into extra_parameters is C16's subject; only what compile_main does with them is modelled (find-links / solutions / sources given inside files are not merged by compile_main and are not generated)",
     "the pooled group's get_candidates (with its (idx, extra_sort_info) tag) is used for listings only: get_dist is inherited from MultiRepository",
 ]
 
@@ -438,6 +444,11 @@ def run_main(mods, case: Dict[str, Any], base: str) -> Dict[str, Any]:
         return session.get(url)
     cap: Dict[str, Any] = {}
     real_build, real_compile, real_get = CL.build_repo, CL.perform_compile, requests.Session.get
+    real_write = CL.write_requirements_file
+
+    def quiet_write(*a, **kw):      # its default `write_to=sys.stdout` is bound at definition time
+        kw.setdefault("write_to", io.StringIO())
+        return real_write(*a, **kw)
 
     def spy_build(*a, **kw):
         cap["index_urls"] = list(a[5])
@@ -458,6 +469,7 @@ def run_main(mods, case: Dict[str, Any], base: str) -> Dict[str, Any]:
     code = 0
     try:
         CL.build_repo, CL.perform_compile, requests.Session.get = spy_build, spy_compile, fake_get
+        CL.write_requirements_file = quiet_write
         with contextlib.redirect_stdout(out), contextlib.redirect_stderr(err):
             try:
                 CL.compile_main(argv)
@@ -465,6 +477,7 @@ def run_main(mods, case: Dict[str, Any], base: str) -> Dict[str, Any]:
                 code = ex.code if isinstance(ex.code, int) else 1
     finally:
         CL.build_repo, CL.perform_compile, requests.Session.get = real_build, real_compile, real_get
+        CL.write_requirements_file = real_write
         P._scan_page_links.cache_clear()
     ids = {u: i for i, u in enumerate(case["urls"])}
     default_id = len(case["urls"])
@@ -566,16 +579,15 @@ def oracle_main(mods, case: Dict[str, Any], base: str) -> Optional[str]:
     if r.get("index_urls") is None:
         return None
     dedup = lambda xs: ordered_union(xs, [])
+    order_problem = None
     if dedup(r["index_urls"]) != want_idx or dedup(r["extra"] or []) != want_extra:
-        return (f"build_repo received index URLs {r['index_urls']} / extra {r['extra']}; listed order is {want_idx} / {want_extra} "
-                "(command line first, then the requirement files, first occurrence)")
+        order_problem = (f"build_repo received index URLs {r['index_urls']} / extra {r['extra']}; listed order is {want_idx} / {want_extra} "
+                         "(command line first, then the requirement files, first occurrence)")
     if case["no_index"] or "stack" not in r:
-        return None
+        return order_problem
     ids = {u: i for i, u in enumerate(case["urls"])}
-    order = [ids[u] for u in r["index_urls"]] if r["index_urls"] else [len(case["urls"])]
-    order += [ids[u] for u in (r["extra"] or [])]
-    if r["stack"] != order:
-        return f"repository stack {r['stack']} is not the listed order {order}"
+    order = [ids[u] for u in want_idx] if want_idx else [len(case["urls"])]
+    order += [ids[u] for u in want_extra]
     req = mods["pkg_resources"].Requirement.parse(main_request(case))
     by_id = {i: case["holdings"][u] for u, i in ids.items()}
     first = next((i for i in order if i in by_id and certainly_able(by_id[i], req, False)), None)
@@ -583,13 +595,20 @@ def oracle_main(mods, case: Dict[str, Any], base: str) -> Optional[str]:
     if first is not None:
         if ans is None:
             return f"no pin although index {first} ({case['urls'][first]}) offers a satisfying, readable wheel"
-        if order.index(ans[0]) > order.index(first):
-            return f"index {ans[0]} supplied the project although the earlier-listed index {first} ({case['urls'][first]}) offers a satisfying, readable wheel"
-    if ans is not None:
+        if ans[0] not in order or order.index(ans[0]) > order.index(first):
+            return (f"index {ans[0]} ({case['urls'][ans[0]] if ans[0] < len(case['urls']) else 'default'}) supplied the project although the "
+                    f"earlier-listed index {first} ({case['urls'][first]}) offers a satisfying, readable wheel; listed order {want_idx} / {want_extra}, "
+                    f"request log {r['log']}")
+    if ans is not None and ans[0] in order:
         pos = order.index(ans[0])
         if any(i in r["log"] for i in order[pos + 1:] if i not in order[: pos + 1]):
             return f"indexes listed after the supplying one were queried: {r['log']} (order {order}, supplier {ans[0]})"
+    if order_problem:
+        return order_problem
+    if r["stack"] != order and dedup(r["stack"]) != dedup(order):
+        return f"repository stack {r['stack']} is not the listed order {order}"
     return None
+
 
 # ---- model encoding --------------------------------------------------------------------
 
@@ -1045,10 +1064,10 @@ def search(ctx: Ctx) -> Optional[Dict[str, Any]]:
         finally:
             shutil.rmtree(d, ignore_errors=True)
         if why:
-            size = len(json.dumps(case))
+            size = len(json.dumps(case)) + (0 if "supplied the project" in why else 100000)
             if best is None or size < best[0]:
                 best = (size, {"input": case, "why": why})
-            if size < 700:
+            if size < 1500:
                 break
     if best is not None:
         return best[1]
@@ -1087,11 +1106,13 @@ def replay_known(ctx: Ctx, entry: Dict[str, Any]) -> Optional[bool]:
     return None
 
 
-LEVEL_TEXT = ("Twelve theorems proved in Coq for all stacks, holdings, requests and settings over a Gallina model of "
-              "MultiRepository.get_dist, the pooled group, the four get_candidates and build_repo (stack order read by T1), "
-              "with the C03 selection model inside each repository: first answer wins, later repositories are not queried, "
-              "fall-through of excluded / non-satisfying solution records, stack shape, only-offer and earlier-location "
-              "clauses, and what the pooled (idx, extra_sort_info) key implies for listings.")
+LEVEL_TEXT = ("Sixteen theorems proved in Coq for all stacks, holdings, requests and settings over a Gallina model of "
+              "MultiRepository.get_dist, the pooled group, the four get_candidates, build_repo (stack order read by T1) and the "
+              "order-preserving union of command-line and file-declared index URLs in compile_main, with the C03 selection model "
+              "inside each repository: first answer wins, later repositories are not queried, fall-through of excluded / "
+              "non-satisfying solution records, stack shape, only-offer and earlier-location clauses, command-line URLs first then "
+              "file order without duplicates and the stack following that order, and what the pooled (idx, extra_sort_info) key "
+              "implies for listings.")
 LEVEL_NOTE = ("Trusted: Coq kernel, extraction, OCaml driver, T1 translators, T2 harness with on-disk wheels / solution files / "
               "setup.py trees and fake HTTP sessions; repository loaders only on simple well-formed inputs.")
 TECHNIQUE = "Rocq proof over Gallina model (list decomposition lemmas over the C03 selection model) + extraction-based differential correspondence through build_repo"
